@@ -35,6 +35,11 @@ pub struct SysCfg {
     /// bias towards systems with deep counterexamples / large diameters (model checking properties):
     /// literal inits, counter-like next functions, bad states of the shape `state == value`
     pub mc_bias: bool,
+    /// sometimes interleave the construction with unrelated filler nodes, so that the expression ids
+    /// of the system spread over several hundred ids (id-indexed sets and maps of more than one word)
+    pub pad_ctx: bool,
+    /// sometimes add a few dozen extra named outputs that alias states, inputs and shared nodes
+    pub many_outputs: bool,
 }
 
 impl Default for SysCfg {
@@ -55,6 +60,8 @@ impl Default for SysCfg {
             divrem: false,
             init_may_read_inputs: true,
             mc_bias: false,
+            pad_ctx: true,
+            many_outputs: false,
         }
     }
 }
@@ -90,6 +97,24 @@ pub fn gen_system(t: &mut Tape, cfg: &SysCfg) -> SysCase {
         max_index_width: 2,
     };
     let mut g = ExprGen::new(ecfg);
+    // filler: unrelated nodes between the pieces of the system
+    let padding = cfg.pad_ctx && t.chance(56);
+    let mut pad_count = 0u32;
+    let mut pad = |ctx: &mut Context, t: &mut Tape| {
+        if !padding {
+            return;
+        }
+        let n = t.below(140);
+        for _ in 0..n {
+            let s = ctx.bv_symbol(&format!("pad{}", pad_count), 8);
+            pad_count += 1;
+            if pad_count % 3 == 0 {
+                let l = ctx.bv_lit(&Bv::from_u64(8, (pad_count % 251) as u64).to_baa());
+                let _ = ctx.add(s, l);
+            }
+        }
+    };
+    pad(&mut ctx, t);
 
     // ---- state and input types under the bit budgets
     let n_states = if cfg.mc_bias { 1 + t.below(cfg.max_states.max(1)) } else { t.below(cfg.max_states + 1) };
@@ -155,6 +180,7 @@ pub fn gen_system(t: &mut Tape, cfg: &SysCfg) -> SysCase {
         }
         inputs.push(sym);
     }
+    pad(&mut ctx, t);
     // ---- states in declaration order; init may only mention earlier states, literals (and inputs)
     let mut states: Vec<(ExprRef, Option<ExprRef>)> = vec![];
     // states that are re-loaded with their (non-literal) init expression every cycle: init == next
@@ -181,6 +207,9 @@ pub fn gen_system(t: &mut Tape, cfg: &SysCfg) -> SysCase {
                 Some(g.of_type(&mut ctx, t, *tpe, steps))
             }
         };
+        if k % 2 == 1 {
+            pad(&mut ctx, t);
+        }
         let name = STATE_NAMES[k % STATE_NAMES.len()];
         let sym = match tpe {
             Type::BV(w) => ctx.bv_symbol(name, *w),
@@ -209,6 +238,7 @@ pub fn gen_system(t: &mut Tape, cfg: &SysCfg) -> SysCase {
     for i in reg_order.iter() {
         sys.add_input(&ctx, *i);
     }
+    pad(&mut ctx, t);
     // ---- next functions
     for (k, (sym, init)) in states.iter().enumerate() {
         let tpe = sym.get_type(&ctx);
@@ -273,6 +303,7 @@ pub fn gen_system(t: &mut Tape, cfg: &SysCfg) -> SysCase {
         };
         sys.add_state(&ctx, State { symbol: *sym, init: *init, next });
     }
+    pad(&mut ctx, t);
     // ---- constraints (biased to be satisfiable)
     let n_con = if cfg.mc_bias { (t.weighted(&[5, 4, 1]) as u32).min(cfg.max_constraints) } else { t.below(cfg.max_constraints + 1) };
     for _ in 0..n_con {
@@ -303,6 +334,7 @@ pub fn gen_system(t: &mut Tape, cfg: &SysCfg) -> SysCase {
         };
         sys.constraints.push(c);
     }
+    pad(&mut ctx, t);
     // ---- bad states
     let n_bad = if cfg.mc_bias { 1 + t.weighted(&[6, 2, 1]).min(cfg.max_bads.max(1) as usize - 1) as u32 } else { 1 + t.below(cfg.max_bads.max(1)) };
     for _ in 0..n_bad {
@@ -394,6 +426,7 @@ pub fn gen_system(t: &mut Tape, cfg: &SysCfg) -> SysCase {
             }
         }
     }
+    pad(&mut ctx, t);
     // ---- outputs
     if cfg.names_and_aliases {
         let n_out = t.below(3);
@@ -410,6 +443,35 @@ pub fn gen_system(t: &mut Tape, cfg: &SysCfg) -> SysCase {
                 g.of_type(&mut ctx, t, Type::BV(w), steps)
             };
             sys.add_output(&mut ctx, format!("out{}", k).into(), e);
+        }
+        // a label storm: dozens of named outputs, several of them on the same state / input / node
+        if cfg.many_outputs && t.chance(40) {
+            let n = 20 + t.below(45);
+            let mut pool: Vec<ExprRef> = states.iter().map(|(s, _)| *s).filter(|s| s.get_type(&ctx).is_bit_vector()).collect();
+            pool.extend(inputs.iter().copied().filter(|s| s.get_type(&ctx).is_bit_vector()));
+            pool.extend(g.bvs.iter().map(|(e, _)| *e).take(6));
+            if !pool.is_empty() {
+                // some states / inputs are also exposed under their own name (how a btor2 file names an
+                // otherwise anonymous state), at a random place among the other labels
+                let mut own: Vec<(u32, ExprRef)> = vec![];
+                for e in pool.iter() {
+                    if ctx[*e].is_symbol() && t.chance(120) {
+                        own.push((t.below(n + 1), *e));
+                    }
+                }
+                for k in 0..=n {
+                    for (at, e) in own.iter() {
+                        if *at == k {
+                            let name = ctx.get_symbol_name(*e).unwrap().to_string();
+                            sys.add_output(&mut ctx, name.into(), *e);
+                        }
+                    }
+                    if k < n {
+                        let e = pool[t.below(pool.len() as u32) as usize];
+                        sys.add_output(&mut ctx, format!("lbl{}", k).into(), e);
+                    }
+                }
+            }
         }
         // debug names on a few intermediate nodes
         let n_names = t.below(3);
